@@ -329,6 +329,11 @@ func (r *run) handle(p *refmqtt.Packet) {
 	b := refmqtt.Encode(ack)
 	r.nAcks++
 	held := r.sc.Withhold > 0 && r.nAcks%r.sc.Withhold == 0 && ack.Type != refmqtt.PUBREL
+	if ack.Type == refmqtt.PUBREL {
+		// a sender releases its QoS 2 exchanges in order (MQTT-4.6.0-3)
+		r.serverSend(b)
+		return
+	}
 	if r.sc.AckPolicy == "immediate" && !held {
 		r.serverSend(b)
 		return
@@ -901,6 +906,7 @@ type subWindow struct {
 	from    int64 // completion of the Subscribe
 	until   map[string]int64 // per filter: start of the Unsubscribe call that names it (certain end)
 	gone    map[string]int64 // per filter: completion of that Unsubscribe (possible end)
+	neverGone map[string]bool
 }
 
 // judgeDispatch: C20 callback dispatch.
@@ -910,30 +916,44 @@ func (r *run) judgeDispatch() {
 		if rq.op.K != "sub" || len(rq.completes) != 1 || rq.completes[0].err != "" {
 			continue
 		}
-		w := &subWindow{req: rq, filters: rq.op.Filters, from: rq.completes[0].stamp, until: map[string]int64{}, gone: map[string]int64{}}
+		w := &subWindow{req: rq, filters: rq.op.Filters, from: rq.completes[0].stamp, until: map[string]int64{}, gone: map[string]int64{}, neverGone: map[string]bool{}}
 		// granted codes: the server denies filters containing "deny"
 		for _, f := range rq.op.Filters {
 			w.granted = append(w.granted, !strings.Contains(f, "deny"))
 		}
 		wins = append(wins, w)
 	}
+	// An Unsubscribe takes effect on the client when its UNSUBACK is processed
+	// (its completion): it removes what is registered for the filter at that
+	// moment.  One that completed before the Subscribe did has no effect on it.
 	for _, rq := range r.reqs {
-		if rq.op.K != "unsub" {
+		if rq.op.K != "unsub" || rq.err != "" {
 			continue
 		}
+		done := len(rq.completes) == 1
 		for _, w := range wins {
-			if rq.call < w.req.call {
+			if done && rq.completes[0].stamp < w.from {
 				continue
 			}
 			for _, f := range rq.op.Filters {
 				for _, wf := range w.filters {
-					if wf == f {
-						if _, ok := w.until[f]; !ok {
-							w.until[f] = rq.call
-							if len(rq.completes) == 1 {
-								w.gone[f] = rq.completes[0].stamp
-							}
+					if wf != f {
+						continue
+					}
+					end := rq.call
+					if end < w.from {
+						end = w.from // already in flight when the callback was registered
+					}
+					if old, ok := w.until[f]; !ok || end < old {
+						w.until[f] = end
+					}
+					if done {
+						if old, ok := w.gone[f]; !ok || rq.completes[0].stamp < old {
+							w.gone[f] = rq.completes[0].stamp
 						}
+					} else {
+						delete(w.gone, f)
+						w.neverGone[f] = true
 					}
 				}
 			}
@@ -947,9 +967,11 @@ func (r *run) judgeDispatch() {
 		lo, hi   int64 // window in which the client may hand it on
 		n        int   // number of hand-overs due
 		released bool
+		relSeen  bool
 	}
 	var ins []*inbound
 	open2 := map[uint16]*inbound{}
+	var order []*inbound // QoS 2 exchanges in the order of their PUBLISH, not yet handed on
 	for _, d := range r.down {
 		switch d.P.Type {
 		case refmqtt.PUBLISH:
@@ -964,16 +986,23 @@ func (r *run) judgeDispatch() {
 				in := &inbound{topic: d.P.Topic, seq: seq, qos: 2, lo: d.First, hi: -1}
 				open2[d.P.ID] = in
 				ins = append(ins, in)
+				order = append(order, in)
 				continue
 			}
 			ins = append(ins, &inbound{topic: d.P.Topic, seq: seq, qos: d.P.QoS, lo: d.First, hi: d.Last, n: 1, released: true})
 		case refmqtt.PUBREL:
 			if in := open2[d.P.ID]; in != nil {
-				in.released = true
-				in.n = 1
+				in.relSeen = true
 				in.lo = d.First
-				in.hi = d.Last
 				delete(open2, d.P.ID)
+			}
+			// the receiver hands released messages on in the order of the
+			// PUBLISHes: everything released at the head of the queue goes now
+			for len(order) > 0 && order[0].relSeen {
+				order[0].released = true
+				order[0].n = 1
+				order[0].hi = d.Last
+				order = order[1:]
 			}
 		}
 	}
@@ -1042,6 +1071,9 @@ func (r *run) judgeDispatch() {
 					}
 					end, hasEnd := w.until[f]
 					gone, hasGone := w.gone[f]
+					if w.neverGone[f] {
+						hasGone = false
+					}
 					if in.lo > w.from && (!hasEnd || in.hi < end) {
 						certain = true
 					}
